@@ -3,16 +3,17 @@ use crate::*;
 
 impl Deserialize for FixedBlock {
     fn deserialize<R: BufRead + Seek>(raw: &mut Deserializer<R>) -> Result<Self, DeserializeError> {
-        let ((
+        let (
             header,
+            header_bytes,
             transaction_bodies,
             transaction_witness_sets,
             auxiliary_data_set,
             invalid_transactions,
-        ), orig_bytes) = deserilized_with_orig_bytes(raw, |raw| -> Result<_, DeserializeError> {
-            deserialize_block(raw)
-        }).map_err(|e| e.annotate("Block"))?;
-        let block_hash = BlockHash(blake2b256(orig_bytes.as_ref()));
+        ) = deserialize_block(raw).map_err(|e| e.annotate("Block"))?;
+        // the hash of a block is the hash of its header (what the next block's prev_hash holds),
+        // taken over the header bytes as they were received
+        let block_hash = BlockHash(blake2b256(header_bytes.as_ref()));
         Ok(FixedBlock {
             header,
             transaction_bodies,
@@ -26,11 +27,11 @@ impl Deserialize for FixedBlock {
 
 fn deserialize_block<R: BufRead + Seek>(
     raw: &mut Deserializer<R>,
-) -> Result<(Header, FixedTransactionBodies, TransactionWitnessSets, AuxiliaryDataSet, TransactionIndexes), DeserializeError> {
+) -> Result<(Header, Vec<u8>, FixedTransactionBodies, TransactionWitnessSets, AuxiliaryDataSet, TransactionIndexes), DeserializeError> {
     let len = raw.array()?;
     let mut read_len = CBORReadLen::new(len);
     read_len.read_elems(4)?;
-    let header = (|| -> Result<_, DeserializeError> { Ok(Header::deserialize(raw)?) })()
+    let (header, header_bytes) = deserilized_with_orig_bytes(raw, |raw| Header::deserialize(raw))
         .map_err(|e| e.annotate("header"))?;
     let transaction_bodies = (|| -> Result<_, DeserializeError> {
         Ok(FixedTransactionBodies::deserialize(raw)?)
@@ -76,6 +77,7 @@ fn deserialize_block<R: BufRead + Seek>(
     }
     Ok((
         header,
+        header_bytes,
         transaction_bodies,
         transaction_witness_sets,
         auxiliary_data_set,
